@@ -1063,6 +1063,16 @@ def rule_R12(ctx):
                 balanced = False
     # the scan loop and the chain of calls from it to re_rec
     loops = [x for x in rx.walk() if x["k"] in ("while", "for", "do")]
+    # the scan loop: the one from whose body re_rec is reached
+    def reaches_rec(body):
+        for c in calls_in(body):
+            if c.get("fn") == "re_rec":
+                return True
+            g = prog.resolve(rx, c["fn"]) if c.get("fn") else None
+            if g is not None and g.file == "regex.c" and prog.cg.reaches(g, ["re_rec"], stop=set()):
+                return True
+        return False
+    loops = [x for x in loops if reaches_rec(x["body"])]
     if not loops:
         raise AnalysisBroken("regexec: scan loop not found")
     lp = loops[0]
@@ -1144,4 +1154,103 @@ def rule_R12(ctx):
 
 
 
-RULES = {"R1": rule_R1, "R2": rule_R2, "R3": rule_R3, "R7": rule_R7, "R8": rule_R8, "R10": rule_R10, "R11": rule_R11, "R12": rule_R12}
+def _count_groups(tree):
+    n = 0
+    stack = [tree]
+    while stack:
+        x = stack.pop()
+        if not isinstance(x, dict):
+            continue
+        if x.get("rn") == ord("(") and "c1" in x:
+            n += 1
+        stack += [x.get("c1"), x.get("c2")]
+    return n
+
+
+def _r13_chunk(args):
+    prog, pats = args if len(args) == 2 else (_R11_PROG, args[0])
+    gc = prog.func("re_groupcount", file="rset.c")
+    bad = None
+    n = 0
+    for pat in pats:
+        # as rset_make() hands it to regcomp: the member in its own group inside the set's group
+        wrapped = b"((" + pat + b"))"
+        try:
+            tree, rest, err = _parse_probe(prog, wrapped)
+        except (OverRead, Unsupported):
+            continue
+        if not isinstance(tree, dict) or rest != len(wrapped) or err:
+            continue                      # does not compile: its group count is never used
+        try:
+            t2, r2, e2 = _parse_probe(prog, pat)
+        except (OverRead, Unsupported):
+            continue
+        if r2 != len(pat) or e2:
+            continue                      # closes the wrapper's own groups: not a pattern of its own
+        try:
+            c = Interp(prog).call(gc, [Ptr(tuple(pat) + (0,))])
+        except OverRead as e:
+            return ("overread", pat, str(e)), n
+        except Unsupported as e:
+            return ("unsupported", pat, str(e)), n
+        n += 1
+        g = _count_groups(tree) - 2
+        if c != g and bad is None:
+            bad = ("differ", pat, (c, g))
+    return bad, n
+
+
+def rule_R13(ctx):
+    """The set matcher numbers the groups of its member patterns with re_groupcount(), a scanner
+    of its own; the regex parser decides what a group really is.  For every pattern that
+    compiles the two must agree, or the groups of all later members of a set are shifted.  Both
+    are evaluated abstractly on every string up to a length bound over ( ) [ ] \\ ^ : a |."""
+    ctx.begin("R13", floor=1, what="group count of the set matcher vs the parser")
+    prog = ctx.prog
+    alpha = [ord(c) for c in "a()[]\\^:|*"]
+    N = 5 if ctx.tier == "thorough" else 4
+    pats = [bytes(c) for L in range(1, N + 1) for c in itertools.product(alpha, repeat=L)]
+    pats += [b"[a\\](b)", b"[x[:a]b(](y)", b"[[:alpha:]](a)", b"[^]a](b)", b"[]a](b)", b"\\((a)", b"([(])"]
+    # and every built-in pattern of the configuration tables
+    from .k import _struct_rows
+    for tab in ("highlights", "filetypes", "dirmarks", "dircontexts"):
+        try:
+            for r_ in _struct_rows(prog, tab):
+                if isinstance(r_.get("pat"), str):
+                    pats.append(r_["pat"].encode("utf-8", "replace"))
+        except Exception:
+            pass
+    global _R11_PROG
+    import multiprocessing as mp
+    chunks = [pats[i::48] for i in range(48)]
+    with _R1_LOCK:
+        _R11_PROG = prog
+        try:
+            with mp.get_context("fork").Pool(min(16, mp.cpu_count())) as pool:
+                results = pool.map(_r13_chunk, [(c,) for c in chunks])
+        except (OSError, ValueError):
+            results = [_r13_chunk((prog, c)) for c in chunks]
+    n_eval = sum(n for b, n in results)
+    bads = [b for b, n in results if b]
+    for b in bads:
+        if b[0] == "unsupported":
+            raise AnalysisBroken("re_groupcount not evaluable on %r: %s" % (b[1], b[2]))
+    if n_eval < 1000:
+        raise AnalysisBroken("only %d compiling patterns compared" % n_eval)
+    if bads:
+        b = sorted(bads, key=lambda x: (len(x[1]), x[1]))[0]
+        if b[0] == "overread":
+            ctx.violation("re_groupcount", "group scanner stays inside the pattern",
+                          "on the pattern %r it %s" % (b[1].decode("latin-1"), b[2]))
+        else:
+            ctx.violation("re_groupcount", "group count agrees with the parser",
+                          "the pattern %r compiles with %d group(s) but re_groupcount() says %d: in a set, "
+                          "the groups of this and all later members are read from the wrong slots" % (
+                              b[1].decode("latin-1"), b[2][1], b[2][0]))
+    else:
+        ctx.ok("re_groupcount", "same number of groups as the parser on %d compiling patterns (all strings "
+               "of length <= %d over %d characters)" % (n_eval, N, len(alpha)))
+
+
+
+RULES = {"R1": rule_R1, "R2": rule_R2, "R3": rule_R3, "R7": rule_R7, "R8": rule_R8, "R10": rule_R10, "R11": rule_R11, "R12": rule_R12, "R13": rule_R13}
